@@ -352,4 +352,18 @@ theorem findNDoRule_noStack (p : PassT) (c : Ctx) (slot : Nat) {w : String} (e :
             exact doAction_noStack hw
           · split at e <;> cases e
 
+/-- a pass constraint, any code: whatever error the model reports, it is not a stack access outside `_stack[]` -/
+theorem testPassConstraint_noStack (p : PassT) (c : Ctx) (s0 : Nat) {w : String} (e : testPassConstraint p c s0 = .error w) : w ≠ "stack" := by
+  unfold testPassConstraint at e
+  split at e
+  · cases e
+  · split at e
+    · cases e; decide
+    · simp only [] at e
+      split at e
+      · rename_i w' hw
+        cases e
+        exact runConstraint_noStack _ _ _ hw
+      · cases e
+
 end GrVerif.Pass
